@@ -18,9 +18,37 @@ import p_tptp  # noqa: E402
 import p_syntax  # noqa: E402
 import p_cli  # noqa: E402
 import p_outline  # noqa: E402
+import p_selftest  # noqa: E402
 
 RUNNERS = dict(p_core.RUNNERS)
 RUNNERS.update({"C10": p_prover.run_C10, "C04": p_completion.run_C04, "C20": p_files.run_C20, "C03": p_equiv.run_C03, "C02": p_equiv.run_C02, "C19": p_equiv.run_C19, "C11": p_analysis.run_C11, "C06": p_tptp.run_C06, "C09": p_tptp.run_C09, "C12": p_tptp.run_C12, "C14": p_syntax.run_C14, "C15": p_syntax.run_C15, "C16": p_cli.run_C16, "C18": p_cli.run_C18, "C13": p_outline.run_C13})
+
+
+TRACE_KINDS = {"rule", "equiv", "gamma", "subst", "completion", "completable", "strong", "external", "analyze", "tptp", "tffproblem",
+               "roundtrip", "fixloop"}
+
+
+def replay(ctx, path):
+    """Re-validates the recorded implementation output of a reported violation with the trace specification and prints the
+    witness; exit 1 if the violation is reproduced, 0 if the record is (now) accepted."""
+    d = json.load(open(path))
+    print(f"replay of {path}")
+    print(f"  property={d.get('property')} check={d.get('check')}")
+    print(f"  input: {str(d.get('text'))[:1000]}")
+    print(f"  reported: {str(d.get('detail'))[:1500]}")
+    rec = d.get("record")
+    if not (isinstance(rec, dict) and rec.get("kind") in TRACE_KINDS and ("pp" in rec or rec.get("kind") in ("roundtrip", "fixloop", "analyze"))):
+        print("  (this record is a process run / text-level finding: re-run the command shown above against the binary to reproduce it)")
+        return 1
+    V.build()
+    verdicts = V.tlc_validate(ctx, "TraceSem", [rec], {"VERIF_PROP": d.get("property", ctx.prop)}, workers=2)
+    bad = [v for v in verdicts if v.get("v") == "DISAGREE"]
+    for v in verdicts:
+        print(f"  {v['check']}: {v['v']}  {V.wit_str(v) if v.get('v') == 'DISAGREE' else ''}")
+    if bad:
+        print(f"VIOLATION property={d.get('property')} replay={path}")
+        return 1
+    return 0
 
 
 def main():
@@ -37,12 +65,27 @@ def main():
             log(str(e))
             return 2
         return 0
+    if a.prop == "selftest":
+        ctx = Ctx("selftest", a.tier, seed)
+        try:
+            return p_selftest.run_selftest(ctx)
+        except ToolError as e:
+            log(f"TOOL ERROR [selftest]: {e}")
+            return 2
+        finally:
+            ctx.cleanup()
     if a.prop not in RUNNERS:
         log(f"unknown property {a.prop}")
         return 2
     ctx = Ctx(a.prop, a.tier, seed)
     if a.replay:
-        ctx.replay = json.load(open(a.replay))
+        try:
+            return replay(ctx, a.replay)
+        except ToolError as e:
+            log(f"TOOL ERROR [{a.prop}]: {e}")
+            return 2
+        finally:
+            ctx.cleanup()
     try:
         return RUNNERS[a.prop](ctx)
     except ToolError as e:
